@@ -574,7 +574,11 @@ def call_contract(I, c, f, args, kwargs):
     for pn, ts in c.types.items():
         if pn in env.vars and isinstance(ts, str) and not ts.startswith("="):
             try:
-                env.vars[pn] = I.coerce_value(env.vars[pn], I.ver.types.parse(ts))
+                pt = I.ver.types.parse(ts)
+                if isinstance(env.vars[pn], VOpt) and not isinstance(pt, TOpt) and not I.spec:
+                    # an Optional actual for a non-Optional formal: resolve None-ness here (fork / path condition)
+                    env.vars[pn] = I.force(env.vars[pn])
+                env.vars[pn] = I.coerce_value(env.vars[pn], pt)
             except KeyError:
                 pass
     if I.spec:
